@@ -87,6 +87,7 @@ TARGETED = {
     "builtin-named-comprehension-variable": "def f():\n    r = [len for len in [1, 2]]\n    def g():\n        return len('ab')\n    return r, g()\nprint(f())\ndef h():\n    def k():\n        global abs\n        return abs(-3)\n    abs = 5\n    return k(), abs\nprint(h())\n",
     "explicit-classmethod-hooks": "class B:\n    @classmethod\n    def __init_subclass__(cls, **kw):\n        super().__init_subclass__(**kw)\n        cls.seen = cls.__name__\n    @classmethod\n    def __class_getitem__(cls, k):\n        return (cls.__name__, k)\nclass C(B):\n    pass\nprint(C.seen, C[1], B['s'])\nclass B2:\n    def __init_subclass__(cls, **kw):\n        cls.seen = cls.__name__\n    def __class_getitem__(cls, k):\n        return (cls.__name__, k)\nclass C2(B2):\n    pass\nprint(C2.seen, C2[1])\n",
     "posonly-receiver-super-in-loops": "class B:\n    def who(self):\n        return 'B'\nclass C(B):\n    def who(self, /):\n        out = []\n        for i in range(2):\n            out.append(super().who() + str(i))\n        return out\n    def two(self, /, x, *, y=1):\n        n = 0\n        while n < 1:\n            n += 1\n            r = (super().who(), x, y)\n        return r\nprint(C().who(), C().two(5, y=6))\n",
+    "fstr-spec-nested-field-with-literal": "name, w, r, n = 'ab', 6, True, 7\nprint(f\"{name:{'>' if r else '<'}{w}}|{n:{'0'}{w - 4}d}|{'x':>{w}}|{name!r:{'^'}{w}}|{n:{'+' if n else ''}}\")\nprint(f'{n:{\"0\"}{w}}', f'{name!s:{chr(45)}<{w}}')\n",
     "matrix-mult-and-ops": "class M:\n    def __matmul__(s, o):\n        return 'mm'\n    def __imatmul__(s, o):\n        return 'imm'\nm = M()\nprint(m @ 1)\nm @= 2\nprint(m, 7 // 2, 2 ** -1, ~5, 5 >> 1)\n",
 }
 
